@@ -19,7 +19,8 @@ RULE = ('E2 histories; at generated publication steps (a cycle after '
         'crash_points = prefixes explored.'
         ' Since rounds 5-7: allocation changes, server deletion races and buckets leaving the cell right before a crashed publication step.'
         ' Since round 8: rack definitions deleted under their servers (a new master cannot load them) before crashed publication steps.'
-        ' Since round 9: server records pointed at a rack nobody defined before crashed publication steps (badparentcrash).')
+        ' Since round 9: server records pointed at a rack nobody defined before crashed publication steps (badparentcrash).'
+        ' Since round 11: a server deleted while no master looks, then every write prefix of the next start-up (rmsrvcrashrestart).')
 ASSUMPTIONS = [
     'a crash loses nothing but the not-yet-issued writes (ZooKeeper writes '
     'are atomic and ordered per session)',
